@@ -180,6 +180,99 @@ theorem makeSecopError_rebuilt {t : Tables} (ht : TablesOk t) (cls : Option Str)
     · exact hplain
   · exact hplain
 
+/-! ## an error sent by a frappy node comes back as the same object -/
+
+theorem takeWhile_prefix {α : Type} (q : α → Bool) (w : List α) (c : α) (rest : List α)
+    (hw : w.all q = true) (hc : q c = false) : (w ++ c :: rest).takeWhile q = w := by
+  induction w with
+  | nil => simp [List.takeWhile, hc]
+  | cons a l ih =>
+    simp only [List.all_cons, Bool.and_eq_true] at hw
+    simp [List.takeWhile, hw.1, ih hw.2]
+
+theorem dropWhile_prefix {α : Type} (q : α → Bool) (w : List α) (c : α) (rest : List α)
+    (hw : w.all q = true) (hc : q c = false) : (w ++ c :: rest).dropWhile q = c :: rest := by
+  induction w with
+  | nil => simp [List.dropWhile, hc]
+  | cons a l ih =>
+    simp only [List.all_cons, Bool.and_eq_true] at hw
+    simp [List.dropWhile, hw.1, ih hw.2]
+
+theorem getLast?_mem {α : Type} {l : List α} {a : α} (h : l.getLast? = some a) : a ∈ l := by
+  have := dropLast_getLast? l a h
+  rw [← this]; simp
+
+/-- `FRAPPY_ERROR` takes a text `Cls: body` (class name of word characters, body without newline) apart again -/
+theorem matchFrappyError_format (w body : Str) (hw : w.all isWordChar = true) (hb : '\n' ∉ body) :
+    matchFrappyError (w ++ ':' :: ' ' :: body) = some (w, body) := by
+  unfold matchFrappyError
+  have hc : isWordChar ':' = false := by decide
+  rw [dropWhile_prefix isWordChar w ':' (' ' :: body) hw hc, takeWhile_prefix isWordChar w ':' (' ' :: body) hw hc]
+  simp only
+  have hl : ¬ body.getLast? = some '\n' := fun h => hb (getLast?_mem h)
+  simp only [hl, if_false]
+  have : body.contains '\n' = false := by
+    cases hcn : body.contains '\n' with
+    | false => rfl
+    | true => exact absurd (List.contains_iff_mem.mp hcn) hb
+  simp [hb]
+
+/-- what the round trip needs of an error object: its class is a class of the tables carrying its error name, and the
+class registered for that name carries it too -/
+def ErrOk (t : Tables) (e : ErrObj) : Prop :=
+  dictGet t.clsname2name e.pycls = some e.name ∧
+  ∃ primary, dictGet t.name2class e.name = some primary ∧ dictGet t.clsname2name primary = some e.name
+
+instance (t : Tables) (e : ErrObj) : Decidable (ErrOk t e) := by
+  unfold ErrOk
+  cases h : dictGet t.name2class e.name with
+  | none => exact isFalse (by rintro ⟨_, p, hp, _⟩; cases hp)
+  | some primary =>
+    by_cases h1 : dictGet t.clsname2name e.pycls = some e.name
+    · by_cases h2 : dictGet t.clsname2name primary = some e.name
+      · exact isTrue ⟨h1, primary, rfl, h2⟩
+      · exact isFalse (by rintro ⟨_, p, hp, hq⟩; cases hp; exact h2 hq)
+    · exact isFalse (fun hh => h1 hh.1)
+
+/-- the text does not itself begin with the name of another class of the same error name (the one ambiguity of the
+report format: `InternalError('ConfigError: x')` and `ConfigError('x')` are reported with the same words) -/
+def NoRefinementPrefix (t : Tables) (e : ErrObj) : Prop :=
+  ∀ w body, matchFrappyError e.arg = some (w, body) → w ≠ e.pycls → dictGet t.clsname2name w ≠ some e.name
+
+theorem makeSecopError_format {t : Tables} (e : ErrObj) (hok : ErrOk t e)
+    (hword : e.pycls.all isWordChar = true) (hnl : '\n' ∉ e.arg)
+    (hpre : dictGet t.name2class e.name = some e.pycls → NoRefinementPrefix t e) :
+    makeSecopError t (some e.name) (formatErr t e) = e := by
+  obtain ⟨hcls, primary, hprim, hpn⟩ := hok
+  have herrcls : classOfName t (some e.name) = primary := by simp [classOfName, hprim]
+  have hname : nameOfClass t primary = e.name := by simp [nameOfClass, hpn]
+  by_cases hp : primary = e.pycls
+  · -- the class registered for its name: the text travels as it is
+    subst hp
+    have hfmt : formatErr t e = e.arg := by simp [formatErr, hprim]
+    rw [hfmt]
+    unfold makeSecopError
+    simp only [herrcls, hname]
+    split
+    · rename_i w body hm
+      split
+      · rename_i n hn
+        split
+        · rename_i hcond
+          exact absurd (hcond.2 ▸ hn) (hpre hprim w body hm hcond.1)
+        · rfl
+      · rfl
+    · rfl
+  · -- a refinement: the class name is written in front and found again
+    have hne : ¬ dictGet t.name2class e.name = some e.pycls := by
+      rw [hprim]; intro h; exact hp (Option.some.inj h)
+    have hfmt : formatErr t e = e.pycls ++ ':' :: ' ' :: e.arg := by simp [formatErr, hne]
+    rw [hfmt]
+    unfold makeSecopError
+    simp only [herrcls, hname, matchFrappyError_format e.pycls e.arg hword hnl, hcls]
+    have : e.pycls ≠ primary := fun h => hp h.symm
+    simp [this]
+
 /-! ## the receive-loop body against the specification -/
 
 theorem resolve_eq_denoted {t : Tables} (ht : TablesOk t) (mp : Maps) (action : Str) (ident : Option Str) :
